@@ -327,6 +327,16 @@ def coq_eval(name, body, prelude=COQ_PRELUDE, timeout=900):
                        cwd=d, preexec_fn=big_stack)
     out = r.stdout.decode("latin-1")
     err = r.stderr.decode("latin-1")
+    # the compiled evaluation file is of no use (only its printed output is): keep the disk bounded
+    for ext in (".vo", ".vok", ".vos", ".glob"):
+        try:
+            os.remove(os.path.join(d, name + ext))
+        except OSError:
+            pass
+    try:
+        os.remove(os.path.join(d, "." + name + ".aux"))
+    except OSError:
+        pass
     return r.returncode, out, err
 
 
